@@ -29,8 +29,19 @@ def ser(o):
     return {k: (v.tolist() if isinstance(v, np.ndarray) else v) for k, v in o.items()}
 
 
+LARGE_UNITS = 2.0 ** 13      # exact scaling: the same datasets expressed in units ~1e4 times smaller
+
+
 def cases(tier, seed):
     out = []
+    # data in large units (features ~1e4): every learner except ITML, whose absolute constants (1e-9 bound floor, identity prior
+    # against squared distances ~1e8) make such data ill-posed for it (on the unchanged tree ITML raises NonPSDError on S5 x 2^13)
+    for dsn in ('S3u', 'S5'):
+        for name in zoo.ALL:
+            if not name.startswith('ITML'):
+                for lab, o in zoo.option_configs(name, data.dataset(dsn), tier)[:4]:
+                    if not any(isinstance(v, np.ndarray) for v in o.values()):
+                        out.append(('%s/%s/%s*2^13/first' % (name, lab, dsn), (name, lab, o, dsn + '*large', seed, 'first')))
     for dsn in data.names(tier):
         ds = data.dataset(dsn, seed) if dsn == 'R' else data.dataset(dsn)
         for name in zoo.ALL:
@@ -54,7 +65,10 @@ def cost(spec):
 
 def run_case(spec):
     name, lab, over, dsn, seed, hist = spec
-    ds = data.dataset(dsn, seed) if dsn == 'R' else data.dataset(dsn)
+    if dsn.endswith('*large'):
+        ds = data.scaled(data.dataset(dsn.split('*')[0]), LARGE_UNITS)
+    else:
+        ds = data.dataset(dsn, seed) if dsn == 'R' else data.dataset(dsn)
     d, n = ds.d, len(ds.X)
     viol = []
     tr = [hist]
